@@ -324,10 +324,64 @@ class Handles:
         if target is None:
             rep.fail(rule_pub, self.writer, "publication function found", "neither flush nor drop publishes")
             return n
+        # the insertion may sit in a private helper of the writer type that the publication function calls
+        outer, via = target, None
+        direct = [blk for blk in target.calls() if short(blk.term.callee() or "") == "HashMap::insert"]
+        if not direct:
+            for blk in target.calls():
+                for s_ in self.inter.sites(target):
+                    if s_.bb != blk.idx:
+                        continue
+                    hb = self.inter.local_callee(s_)
+                    if hb is not None and hb.impl and hb.impl["self_ty"] == self.writer and hb.impl["trait"] is None and \
+                            any(short(x.term.callee() or "") == "HashMap::insert" for x in hb.calls()):
+                        target, via = hb, blk
         tr = get_tracer(facts, target)
         inserts = [blk for blk in target.calls() if short(blk.term.callee() or "") == "HashMap::insert"]
         n += 1
-        rep.ob(rule_pub, target.id, "publication inserts into the map", len(inserts) == 1, "%d insert site(s)" % len(inserts), target.span)
+        rep.ob(rule_pub, outer.id, "publication inserts into the map", len(inserts) == 1, "%d insert site(s)%s" % (
+            len(inserts), " (in %s)" % target.id if via is not None else ""), outer.span)
+        # a publication that moves the buffer out (mem::swap/take/replace on the cursor) may run once only: it has to be
+        # reachable from Drop::drop and from nowhere else, or a second publication (close, then drop) publishes an emptied buffer
+        for wb in self.facts.bodies:
+            if not (wb.impl and wb.impl["self_ty"] == self.writer) and not (wb.kind == "Closure" and wb.root and
+                    (self.facts.body(wb.root) is not None and (self.facts.body(wb.root).impl or {}).get("self_ty") == self.writer)):
+                continue
+            trw = get_tracer(facts, wb)
+            for blk in wb.calls():
+                if short(blk.term.callee() or "") not in ("mem::swap", "mem::take", "mem::replace"):
+                    continue
+                argts = [trw.operand(a_) for a_ in blk.term.args]
+                if not any(x[0] == "field" and x[2] == cur_field for a_ in argts for x in walk(a_)):
+                    continue
+                # swapping the buffer with a clone of itself leaves it intact (the sync writer's flush does that)
+                if any(x[0] == "call" and isinstance(x[1], str) and short(x[1]) in ("Clone::clone", "Vec::clone", "ToOwned::to_owned", "slice::to_vec") and
+                       any(y[0] == "field" and y[2] == cur_field for y in walk(x)) for a_ in argts for x in walk(a_)):
+                    continue
+                root = self.facts.body(wb.root) if wb.kind == "Closure" and wb.root else wb
+                callers = set()
+                stack, seen = [root], {root.id}
+                only_drop = True
+                while stack:
+                    f = stack.pop()
+                    is_drop = bool(f.impl) and (f.impl.get("trait") or "").endswith("::Drop") and f.name == "drop"
+                    if is_drop:
+                        continue
+                    cs = [b2 for b2 in self.facts.bodies for s2 in self.inter.sites(b2)
+                          if (self.inter.local_callee(s2) is not None and self.inter.local_callee(s2).id == f.id)]
+                    if not cs or (f.impl and f.impl.get("trait")) or f.vis == "pub":
+                        only_drop = False   # a non-drop entry point (trait method / public fn) takes the buffer
+                        callers.add(f.id)
+                    for c in cs:
+                        c = self.facts.body(c.root) if c.kind == "Closure" and c.root else c
+                        if c.id not in seen:
+                            seen.add(c.id)
+                            stack.append(c)
+                n += 1
+                rep.ob(rule_pub, wb.id, "the buffer is moved out only on the drop path", only_drop,
+                       "reachable from Drop::drop only" if only_drop else
+                       "%s moves the writer's buffer out and is reachable from %s: after that call a later publication (drop) "
+                       "publishes an emptied buffer — close()/flush() followed by drop loses the data" % (wb.id, sorted(callers)[:2]), blk.term.line)
         for blk in inserts:
             t = blk.term
             a = [norm(tr.operand(x)) for x in t.args]
@@ -365,6 +419,15 @@ class Handles:
                            "`%s` of the published entry is %s: it is not taken from the entry found under the destination at flush "
                            "time (a timestamp set in between is lost / content writes disturb it)" % (fld, fmt(v)[:70] if v else "?"), t.line)
         # every non-error return of the publication passes the insert
+        if via is not None:
+            tro = get_tracer(facts, outer)
+            for ct, _, bb in self.inter.ret_cases(outer):
+                if self.inter.case_polarity(ct) == "err":
+                    continue
+                ok = via.idx in tro.cfg.dominating_blocks(bb)
+                n += 1
+                rep.ob(rule_pub, outer.id, "every successful return has published", ok, "" if ok else
+                       "the publication function can return without calling the helper that inserts the buffer", outer.blocks[bb].term.line)
         for ct, _, bb in self.inter.ret_cases(target):
             if self.inter.case_polarity(ct) == "err":
                 continue
